@@ -7,13 +7,19 @@ tier = sys.argv[3] if len(sys.argv) > 3 else 'quick'
 patch = '/verif/seeded/%s/patch.diff' % name
 st = subprocess.run('git -C /repo status --porcelain --untracked-files=no', shell=True, stdout=subprocess.PIPE).stdout.decode().strip()
 assert st == '', '/repo has uncommitted changes: ' + st
-rc = subprocess.run('git -C /repo apply ' + patch, shell=True).returncode
-assert rc == 0, 'patch does not apply'
+import time
+LOCK = '/tmp/ferrous-seedrun.lock'      # other checks (e.g. a thorough run in a snapshot of /verif) wait with their build
+open(LOCK, 'w').write(name)
 try:
-    p = subprocess.run('./check %s %s' % (prop, tier), shell=True, cwd='/verif', stdout=subprocess.PIPE, stderr=subprocess.STDOUT)
+    while subprocess.run("pgrep -f 'cargo build --offline --quiet' >/dev/null", shell=True).returncode == 0:
+        time.sleep(1.0)                 # somebody is building from /repo right now
+    rc = subprocess.run('git -C /repo apply ' + patch, shell=True).returncode
+    assert rc == 0, 'patch does not apply'
+    p = subprocess.run('VERIF_SEEDRUN=1 ./check %s %s' % (prop, tier), shell=True, cwd='/verif', stdout=subprocess.PIPE, stderr=subprocess.STDOUT)
     out = p.stdout.decode(errors='replace')
 finally:
     subprocess.run('git -C /repo checkout -- .', shell=True)
+    os.remove(LOCK)
 lines = [l for l in out.splitlines() if l.startswith(('VIOLATION', 'OK ', 'TOOL-ERROR', '  '))][:6]
 print('\n'.join(lines))
 verdict = 'DETECTED' if p.returncode == 1 and 'VIOLATION' in out else ('TOOL-ERROR' if p.returncode == 2 else 'MISSED')
